@@ -498,12 +498,16 @@ func getContentProtocol(input string) (proto, content string) {
 func (c *c) GetTLSSecretPath(defaultNamespace, secretName string, track []convtypes.TrackingRef) (file convtypes.CrtFile, err error) {
 	proto, content := getContentProtocol(secretName)
 	if proto == "file" {
-		if _, err := os.Stat(content); err != nil {
+		// callers read the parsed certificate, e.g. its common name and expiring
+		// date, so it cannot be missing when the certificate comes from a file
+		crt, err := c.sslCerts.readCertificateFile(content)
+		if err != nil {
 			return file, err
 		}
 		return convtypes.CrtFile{
-			Filename: content,
-			SHA1Hash: "-",
+			Filename:    content,
+			SHA1Hash:    "-",
+			Certificate: crt,
 		}, nil
 	} else if proto != "secret" {
 		return file, fmt.Errorf("unsupported protocol: %s", proto)
